@@ -336,6 +336,8 @@ def model_op_lines(op, pool):
         return G.new_lines('C10', op[1], pool)
     if op[0] == 'rtas' or (op[0] == 'rt' and op[2] == 'dict'):
         return ['C10 todict %d' % op[1], model_op_line(op)]
+    if op[0] in ('shiftf', 'shiftedf'):
+        return ['C10 shiftvals %d' % op[1], 'C10 absorbs %d %s' % (op[1], rat_list(op[2])), model_op_line(op)]
     return [model_op_line(op)]
 
 
@@ -902,7 +904,10 @@ def nan_oracle(obs):
         if obs['src'][i] is not None and obs['hash'][i] != obs['hash'][obs['src'][i]]:
             bad.append(('nan-copy-hash', 'a copy of a grid with NaN coordinates has another hash'))
         for j in range(n):
-            if obs['eq'][i][j] is not obs['eq'][j][i]:
+            if not isinstance(obs['eq'][i][j], bool):
+                bad.append(('eq-raises', 'g%d == g%d raised %s in a case with NaN coordinates' % (i, j, obs['eq'][i][j])))
+                continue
+            if obs['eq'][i][j] != obs['eq'][j][i]:
                 bad.append(('eq-symm', 'g%d == g%d is %s but g%d == g%d is %s (NaN coordinates)' % (i, j, obs['eq'][i][j], j, i, obs['eq'][j][i])))
             if not obs['flags'][i] and not obs['flags'][j]:
                 want = G.ident(obs['snaps'][i]) == G.ident(obs['snaps'][j])
@@ -1078,6 +1083,23 @@ def run(ctx):
                 real_k = 'k' + ''.join({'reg': '0', 'sep': '1', 'uns': '2'}[sn['kind']] for sn in obs['snaps'])
                 if out[base + m['kinds']] != 'ok ' + real_k:
                     dis(ctx, 'C10 kinds', {'case': case, 'after': op, 'impl': real_k, 'model': out[base + m['kinds']]})
+                    break
+            if op[0] in ('shiftf', 'shiftedf') and st['status'] == 'ok':
+                # the prediction of `shiftF_keeps_iff_absorbs` (made before the op) against what the shift did to the identity
+                src = st['before'][op[1]]
+                if op[0] == 'shiftedf':
+                    kept = obs['eq'][op[1]][len(obs['snaps']) - 1] is True
+                else:
+                    kept = [list(map(float, a)) for a in obs['snaps'][op[1]]['data']] == [list(map(float, a)) for a in src['data']]
+                ctx.traces_validated += 1
+                ctx.count('absorbs:' + ('kept' if kept else 'changed'))
+                real_vals = [[z] for z in src['data'][2]] if src['kind'] == 'reg' else src['data']
+                mv = G.parse_rat_lists(out[base + m['op'] - 2].split(' ', 1)[1])
+                if [[float(x) for x in a] for a in mv] != [[float(x) for x in a] for a in real_vals]:
+                    dis(ctx, 'C10 shiftvals', {'case': case, 'op': op, 'impl': real_vals, 'model': out[base + m['op'] - 2][:200]})
+                    break
+                if out[base + m['op'] - 1] != 'ok ' + ('1' if kept else '0'):
+                    dis(ctx, 'C10 absorbs', {'case': case, 'op': op, 'impl-identity-kept': kept, 'model': out[base + m['op'] - 1]})
                     break
             if st.get('dict') is not None:
                 # `toDict` of the model against what `to_dict()` wrote (the request just before the op)
